@@ -277,19 +277,20 @@ def do_setup() -> int:
                 log(f"setup: unit {unit.name}: cannot generate: {e}")
                 rc = 1
                 continue
-            cmd = ["cargo", "kani", "-Z", "unstable-options"] + list(unit.kani_flags)
-            if unit.package:
-                cmd += ["-p", unit.package]
-            cmd += ["--only-codegen", "--target-dir", str(core.CACHE / "target" / unit.name)]
             lock = core._unit_lock(unit)
             try:
-                r, out, wall = core.run_shell(cmd, gen_dir / unit.crate_subdir, 3600)
+                for w in range(unit.workers):
+                    cmd = ["cargo", "kani", "-Z", "unstable-options"] + list(unit.kani_flags)
+                    if unit.package:
+                        cmd += ["-p", unit.package]
+                    cmd += ["--only-codegen", "--target-dir", str(core.CACHE / "target" / f"{unit.name}-w{w}")]
+                    r, out, wall = core.run_shell(cmd, gen_dir / unit.crate_subdir, 3600)
+                    log(f"setup: unit {unit.name} worker {w}: rc={r} {wall:.0f}s")
+                    if r != 0:
+                        log("\n".join(out.splitlines()[-30:]))
+                        rc = 1
             finally:
                 lock.close()
-            log(f"setup: unit {unit.name}: rc={r} {wall:.0f}s")
-            if r != 0:
-                log("\n".join(out.splitlines()[-30:]))
-                rc = 1
             shutil.rmtree(gen_dir, ignore_errors=True)
     return rc
 
